@@ -62,9 +62,9 @@ func c13Laws[L dfa.Semilattice[E], E any](name string, pts []E, str func(E) stri
 			fail("identity", a, -1, -1, fmt.Sprintf("%s ∧ Ident = %s", str(x), str(xi)))
 		}
 		if ix, p := merge(id, x); p != "" {
-			fail("identity", -1, a, -1, fmt.Sprintf("Merge(Ident,%s) panics: %s", str(x), p))
+			fail("identity-left", a, -1, -1, fmt.Sprintf("Merge(Ident,%s) panics: %s", str(x), p))
 		} else if !l.Equals(ix, x) {
-			fail("identity", -1, a, -1, fmt.Sprintf("Ident ∧ %s = %s", str(x), str(ix)))
+			fail("identity-left", a, -1, -1, fmt.Sprintf("Ident ∧ %s = %s", str(x), str(ix)))
 		}
 		for b := range pts {
 			if only != nil && only.B >= 0 && b != only.B {
@@ -101,6 +101,16 @@ func c13Laws[L dfa.Semilattice[E], E any](name string, pts []E, str func(E) stri
 				}
 				if !l.Equals(l1, l2) {
 					fail("associativity", a, b, c, fmt.Sprintf("%s ∧ (%s ∧ %s) = %s but (%s ∧ %s) ∧ %s = %s", str(x), str(y), str(z), str(l1), str(x), str(y), str(z), str(l2)))
+				}
+				// "=" in the laws is Equals ("whether a and b are the same element"): it has to be
+				// an equivalence that Merge respects, or the laws above say nothing.
+				if l.Equals(x, y) {
+					if l.Equals(y, z) && !l.Equals(x, z) {
+						fail("equals-transitive", a, b, c, fmt.Sprintf("%s = %s and %s = %s but not %s = %s", str(x), str(y), str(y), str(z), str(x), str(z)))
+					}
+					if xz, p6 := merge(x, z); p6 == "" && !l.Equals(xz, yz) {
+						fail("equals-congruence", a, b, c, fmt.Sprintf("%s = %s but %s ∧ %s = %s and %s ∧ %s = %s", str(x), str(y), str(x), str(z), str(xz), str(y), str(z), str(yz)))
+					}
 				}
 			}
 		}
@@ -173,16 +183,11 @@ func (c13TableL) Ident() Nilness             { return 0 }
 func (c13TableL) Equals(a, b Nilness) bool   { return a == b }
 func (c13TableL) Merge(a, b Nilness) Nilness { return latticeMerge[a][b] }
 
-func TestVerifC13Laws(t *testing.T) {
-	res := c13Result()
-	defer res.Write()
+func c13LawsMain(t *testing.T, res *vx.Result, raw json.RawMessage) {
 	var only *c13LawCase
-	if _, raw, ok := vx.Replay(); ok {
+	if raw != nil {
 		var c c13LawCase
 		json.Unmarshal(raw, &c)
-		if c.Kind != "law" {
-			return
-		}
 		only = &c
 	}
 	want := func(name string) bool { return only == nil || only.Lattice == name }
